@@ -114,6 +114,18 @@ func TestVerifC16Inherit(t *testing.T) {
 			}
 		}
 		oldOrder, newOrder := r.Perm(ng), r.Perm(ng)
+		// the two configurations need not define the same groups: one in three rounds drops a group
+		// from the old generation (it is new in the new one) and/or from the new generation
+		if ng > 1 && round%3 == 0 {
+			if r.IntN(3) != 0 {
+				oldOrder = oldOrder[:len(oldOrder)-1]
+				m.Count("inherit_rounds_with_a_group_only_in_the_new_generation", 1)
+			}
+			if r.IntN(3) == 0 {
+				newOrder = newOrder[:len(newOrder)-1]
+				m.Count("inherit_rounds_with_a_group_only_in_the_old_generation", 1)
+			}
+		}
 		old := build(nn, members, pol, oldOrder)
 		// last known state of the old generation
 		dead := make([][6]bool, nn)
@@ -134,6 +146,31 @@ func TestVerifC16Inherit(t *testing.T) {
 			}
 		}
 		nw := build(nn, members, pol, newOrder)
+		// dae hands a node's state over through a group defined in BOTH generations; a node that is
+		// only in groups without a counterpart starts fresh (alive) - what the statement says about
+		// it is open, so it is counted, not judged
+		inOld, inNew := make([]bool, ng), make([]bool, ng)
+		for _, gi := range oldOrder {
+			inOld[gi] = true
+		}
+		for _, gi := range newOrder {
+			inNew[gi] = true
+		}
+		inherited := make([]bool, nn)
+		for gi := range members {
+			if inOld[gi] && inNew[gi] {
+				for _, n := range members[gi] {
+					inherited[n] = true
+				}
+			}
+		}
+		oldDead := dead
+		dead = make([][6]bool, nn)
+		for n := range dead {
+			if inherited[n] {
+				dead[n] = oldDead[n]
+			}
+		}
 		oldCP, newCP := &ControlPlane{}, &ControlPlane{}
 		oldCP.outbounds, newCP.outbounds = old.groups, nw.groups
 		m.Eval(1)
@@ -142,7 +179,7 @@ func TestVerifC16Inherit(t *testing.T) {
 			defer func() { panicked = recover() }()
 			newCP.InheritDialerHealthFrom(oldCP)
 		}()
-		witness := map[string]any{"nodes": nn, "groups": members, "policies": fmt.Sprint(pol), "old_group_order": oldOrder, "new_group_order": newOrder, "dead_before(node,type)": fmt.Sprint(dead)}
+		witness := map[string]any{"nodes": nn, "groups": members, "policies": fmt.Sprint(pol), "old_group_order": oldOrder, "new_group_order": newOrder, "dead_before(node,type)": fmt.Sprint(oldDead), "handed_over_dead(node,type)": fmt.Sprint(dead), "node_is_in_a_group_of_both_generations": fmt.Sprint(inherited)}
 		if panicked != nil {
 			m.Violation("inherit-panic", fmt.Sprintf("InheritDialerHealthFrom panicked: %v", panicked), witness)
 			old.close()
@@ -185,6 +222,10 @@ func TestVerifC16Inherit(t *testing.T) {
 			if use[n] == 0 {
 				continue
 			}
+			if !inherited[n] {
+				m.Count("inherit_nodes_without_a_group_in_both_generations_not_judged", 1)
+				continue
+			}
 			for ti, nt := range types {
 				now := nw.nodes[n].MustGetAlive(nt)
 				m.Count("inherit_node_type_state_checked", 1)
@@ -196,6 +237,9 @@ func TestVerifC16Inherit(t *testing.T) {
 					// legitimate only as the floor of a group that had no alive member for the type
 					floor := false
 					for gi := range members {
+						if !inNew[gi] {
+							continue
+						}
 						has, aliveOthers := false, 0
 						for _, mbr := range members[gi] {
 							if mbr == n {
@@ -231,6 +275,6 @@ func TestVerifC16Inherit(t *testing.T) {
 		old.close()
 		nw.close()
 	}
-	m.Require("inherit_group_type_needed_floor", "inherit_floor_revivals", "inherit_rounds_with_shared_nodes")
+	m.Require("inherit_group_type_needed_floor", "inherit_floor_revivals", "inherit_rounds_with_shared_nodes", "inherit_rounds_with_a_group_only_in_the_new_generation", "inherit_rounds_with_a_group_only_in_the_old_generation")
 	m.Done(t)
 }
